@@ -62,8 +62,11 @@ func init() {
 	domains["cliargs"] = domain{runCliArgs,
 		"real CLI: `task fwd -- args…` (command `REC {{.CLI_ARGS}}`) and `task var X=value` (command `REC {{shellQuote .X}} " +
 			"{{q .X}}`) with argument vectors over the same byte alphabet (no NUL; `{{` only in a separate template stream), " +
-			"argv recorded by a helper binary; `task --init [PATH]` on generated directory trees (no arg, directory, file name, " +
-			"extension only, nested, absolute, existing targets, missing parents, `--`); distinct by argv / (tree, args)"}
+			"argv recorded by a helper binary; the value also reaches the command through an included task, through a `task:` call that hands it on in " +
+			"`vars:`, through a global alias; non-string values through shellQuote / q; `task --init [PATH]` on generated directory trees (no arg, " +
+			"directory, `.` / `sub/.`, hidden directories, file name, extension only, nested, absolute, existing targets, missing parents, `--`, symbolic " +
+			"links to directories / files / nowhere — the model gets the tree as os.Stat sees it), the expected target computed from the rule " +
+			"(initRule); distinct by argv / (tree, args)"}
 }
 
 // ---------------------------------------------------------------- byte-string generator
@@ -555,7 +558,11 @@ func runQuote(c *Ctx) {
 // ---------------------------------------------------------------- domain cliargs
 
 type cliCase struct {
-	Kind string   `json:"kind"` // fwd | var | init
+	Kind string   `json:"kind"` // fwd | var | typed | init
+	// fwd / var: the path on which the forwarded value reaches the recording command (the demand is the same on every path):
+	// "" (the task itself) | inc (a task of an included Taskfile) | via (a `task:` call handing it on in `vars:`) | alias
+	// (a GLOBAL variable defined as '{{.CLI_ARGS}}' / '{{.X}}')
+	Path string `json:"path,omitempty"`
 	Argv []string `json:"argv"` // hex; fwd/var: positional arguments of `task` (before and after --); init: positional arguments ({ROOT} = tree root)
 	Dash int      `json:"dash"` // index in Argv where "--" is inserted, -1 = none
 	Text []string `json:"text,omitempty"`
@@ -587,6 +594,11 @@ var (
 
 const cliTaskfileVarY = "why"
 
+// non-string variable values of the workers' Taskfile: name, YAML text, what the template engine prints for it
+// (`{{shellQuote .N}}`: "any variable value" — fix 0d1f4ef; before: `wrong type for value; expected string`)
+var cliTyped = [][3]string{{"N1", "42", "42"}, {"N2", "-7", "-7"}, {"N3", "0", "0"}, {"B1", "true", "true"}, {"B2", "false", "false"},
+	{"F1", "1.5", "1.5"}, {"L1", "[a, b c]", "[a b c]"}, {"S1", "'007'", "007"}, {"M1", "{map: {k: v}}", "map[k:v]"}}
+
 func cliSetup() {
 	cliBin = os.Getenv("VERIF_TASK_BIN")
 	cliRoot = os.Getenv("VERIF_SCRATCH")
@@ -606,10 +618,35 @@ func cliSetup() {
 		os.MkdirAll(filepath.Join(w.dir, "home"), 0o755)
 		rec, _ := syntax.Quote(self, syntax.LangBash)
 		out, _ := syntax.Quote(w.outFile, syntax.LangBash)
-		tf := "version: '3'\nsilent: true\nvars:\n  Y: " + cliTaskfileVarY + "\ntasks:\n" +
-			"  fwd:\n    cmds:\n      - " + strconv.Quote(rec+" __record "+out+" {{.CLI_ARGS}}") + "\n" +
-			"  var:\n    cmds:\n      - " + strconv.Quote(rec+" __record "+out+" {{shellQuote .X}} {{q .X}}") + "\n" +
-			"  default:\n    cmds:\n      - " + strconv.Quote(rec+" __record "+out+" {{shellQuote .X}} {{q .X}}") + "\n"
+		recFwd := func(v string) string { return strconv.Quote(rec + " __record " + out + " {{." + v + "}}") }
+		recVar := func(v string) string { return strconv.Quote(rec + " __record " + out + " {{shellQuote ." + v + "}} {{q ." + v + "}}") }
+		tf := "version: '3'\nsilent: true\nvars:\n  Y: " + cliTaskfileVarY + "\n  GARGS: '{{.CLI_ARGS}}'\n  GX: '{{.X}}'\n"
+		for _, tv := range cliTyped {
+			tf += "  " + tv[0] + ": " + tv[1] + "\n"
+		}
+		tf += "includes:\n  inc:\n    taskfile: ./inc/Taskfile.yml\n    dir: .\n" +
+			"tasks:\n" +
+			"  fwd:\n    cmds:\n      - " + recFwd("CLI_ARGS") + "\n" +
+			"  var:\n    cmds:\n      - " + recVar("X") + "\n" +
+			"  default:\n    cmds:\n      - " + recVar("X") + "\n" +
+			// through a `task:` call that hands the value on in `vars:`
+			"  viafwd:\n    cmds:\n      - task: getsA\n        vars: {A: '{{.CLI_ARGS}}'}\n" +
+			"  getsA:\n    cmds:\n      - " + recFwd("A") + "\n" +
+			"  viavar:\n    cmds:\n      - task: getsV\n        vars: {V: '{{.X}}'}\n" +
+			"  getsV:\n    cmds:\n      - " + recVar("V") + "\n" +
+			// through a global variable defined from it
+			"  aliasfwd:\n    cmds:\n      - " + recFwd("GARGS") + "\n" +
+			"  aliasvar:\n    cmds:\n      - " + recVar("GX") + "\n"
+		for _, tv := range cliTyped {
+			tf += "  ty-" + tv[0] + ":\n    cmds:\n      - " + recVar(tv[0]) + "\n"
+		}
+		inc := "version: '3'\nsilent: true\ntasks:\n" +
+			"  fwd:\n    cmds:\n      - " + recFwd("CLI_ARGS") + "\n" +
+			"  var:\n    cmds:\n      - " + recVar("X") + "\n"
+		os.MkdirAll(filepath.Join(w.dir, "inc"), 0o755)
+		if err := os.WriteFile(filepath.Join(w.dir, "inc", "Taskfile.yml"), []byte(inc), 0o644); err != nil {
+			panic(err)
+		}
 		if err := os.WriteFile(filepath.Join(w.dir, "Taskfile.yml"), []byte(tf), 0o644); err != nil {
 			panic(err)
 		}
@@ -674,11 +711,42 @@ func evalCli(d *cliCase) (cl string, il string) {
 		hs[i] = hx(s)
 	}
 	cl = caseLine("quote.e2e", append([]string{d.Kind, strconv.Itoa(d.Dash)}, hs...)...)
+	run := ss
+	if d.Kind == "typed" {
+		// `task ty-<NAME>`: the demand is that of `var` with X = what the engine prints for the value
+		printed := ""
+		for _, tv := range cliTyped {
+			if len(ss) == 1 && tv[0] == ss[0] {
+				printed = tv[2]
+			}
+		}
+		cl = caseLine("quote.e2e", "var", "-1", hx("X="+printed))
+		run = []string{"ty-" + ss[0]}
+	} else if d.Path != "" {
+		// the same arguments, the task name replaced by the one of the path
+		name := map[string]string{"inc": "inc:" + d.Kind, "via": "via" + d.Kind, "alias": "alias" + d.Kind}[d.Path]
+		run = append([]string{}, ss...)
+		for i := range run {
+			if run[i] == d.Kind && (d.Dash < 0 || i < d.Dash) {
+				run[i] = name
+				break
+			}
+		}
+	}
 	cliTemplated(d, ss)
 	w := <-cliWorkers
 	defer func() { cliWorkers <- w }()
 	os.Remove(w.outFile)
-	rc, out := runCLI(w.dir, filepath.Join(w.dir, "home"), withDash(ss, d.Dash))
+	rc, out := runCLI(w.dir, filepath.Join(w.dir, "home"), withDash(run, d.Dash))
+	if d.Path == "alias" {
+		// monitor of the open finding C19-forwarded-value-empty-in-global-alias (one root with C10-cli-specials-defined-after-globals):
+		// the global was rendered before the command-line layer existed — the helper gets nothing (fwd) / two empty arguments (var)
+		rec, ok := readRecorded(w.outFile)
+		want := cliDemanded(d, ss)
+		if rc == 0 && ok && rec != want && (rec == "argv" || rec == "argv - -") {
+			return cl, rec + " alias-empty"
+		}
+	}
 	rec, ok := readRecorded(w.outFile)
 	// monitors of the open findings: the outcome is exactly what the template passes give
 	// → tagged `templated` (DESIGN §8 row 26) resp. `novalue` (<no value> deleted)
@@ -825,14 +893,24 @@ func evalInit(d *cliCase, ss []string) (cl string, il string) {
 	wd := filepath.Join(root, "w")
 	os.MkdirAll(wd, 0o755)
 	os.MkdirAll(filepath.Join(root, "home"), 0o755)
+	var links []string
 	for _, e := range d.Tree {
 		p := filepath.Join(root, e[2:])
-		if strings.HasPrefix(e, "d:") {
+		switch {
+		case strings.HasPrefix(e, "d:"):
 			os.MkdirAll(p, 0o755)
-		} else {
+		case strings.HasPrefix(e, "l:"): // l:<path>=<target as written in the link>
+			links = append(links, e[2:])
+		default:
 			os.MkdirAll(filepath.Dir(p), 0o755)
 			os.WriteFile(p, []byte("# pre-existing "+e+"\n"), 0o644)
 		}
+	}
+	for _, l := range links {
+		kv := strings.SplitN(l, "=", 2)
+		p := filepath.Join(root, kv[0])
+		os.MkdirAll(filepath.Dir(p), 0o755)
+		os.Symlink(strings.ReplaceAll(kv[1], "{ROOT}", root), p)
 	}
 	type ent struct {
 		dir     bool
@@ -854,6 +932,9 @@ func evalInit(d *cliCase, ss []string) (cl string, il string) {
 			}
 			if fi.IsDir() {
 				m[v] = ent{dir: true}
+			} else if fi.Mode()&os.ModeSymlink != 0 {
+				t, _ := os.Readlink(p) // the link itself (writing THROUGH a dangling link creates its target, the link stays)
+				m[v] = ent{content: "-> " + t}
 			} else {
 				b, _ := os.ReadFile(p)
 				m[v] = ent{content: string(b)}
@@ -863,6 +944,35 @@ func evalInit(d *cliCase, ss []string) (cl string, il string) {
 		return m
 	}
 	before := snap()
+	// Symbolic links: the model's file system has files and directories only, so it is given the tree AS os.Stat SEES IT — a link
+	// to a directory is that directory (with its entries below the link's name), a link to a file is a file, a dangling link is
+	// absent — and the file the run creates is mapped back to the name it was asked for (`viaLink`).
+	statView := map[string]ent{}
+	for k, v := range before {
+		statView[k] = v
+	}
+	for _, l := range links {
+		kv := strings.SplitN(l, "=", 2)
+		v := "/" + kv[0]
+		delete(statView, v)
+		st, err := os.Stat(filepath.Join(root, kv[0]))
+		switch {
+		case err != nil: // dangling
+		case st.IsDir():
+			statView[v] = ent{dir: true}
+			real, _ := filepath.EvalSymlinks(filepath.Join(root, kv[0]))
+			rel, _ := filepath.Rel(root, real)
+			for k2, v2 := range before {
+				if strings.HasPrefix(k2, "/"+rel+"/") {
+					statView[v+strings.TrimPrefix(k2, "/"+rel)] = v2
+				}
+			}
+		default:
+			statView[v] = ent{content: "via link"}
+		}
+	}
+	snapBefore := before
+	before = statView
 	// model input: virtual root "/"
 	virt := make([]string, len(ss))
 	real := make([]string, len(ss))
@@ -870,7 +980,11 @@ func evalInit(d *cliCase, ss []string) (cl string, il string) {
 		virt[i] = strings.ReplaceAll(s, "{ROOT}", "")
 		real[i] = strings.ReplaceAll(s, "{ROOT}", root)
 	}
-	toks := []string{hx("/w"), strconv.Itoa(d.Dash), strconv.Itoa(len(virt))}
+	isDirV := map[string]bool{}
+	for k, v := range before {
+		isDirV[k] = v.dir
+	}
+	toks := []string{initRule(isDirV, "/w", virt, d.Dash), hx("/w"), strconv.Itoa(d.Dash), strconv.Itoa(len(virt))}
 	for _, s := range virt {
 		toks = append(toks, hx(s))
 	}
@@ -893,6 +1007,24 @@ func evalInit(d *cliCase, ss []string) (cl string, il string) {
 	}
 	rc, _ := runCLI(wd, filepath.Join(root, "home"), append([]string{flag}, withDash(real, d.Dash)...))
 	after := snap()
+	before = snapBefore
+	// the name under which the rule expects the new file, when that name leads (through links) to the file that was created
+	viaLink := func(physical string) string {
+		want := toks[0]
+		if !strings.HasPrefix(want, "w") || len(links) == 0 {
+			return physical
+		}
+		b, err := hex.DecodeString(want[1:])
+		if err != nil {
+			return physical
+		}
+		if real, err := filepath.EvalSymlinks(filepath.Join(root, string(b))); err == nil {
+			if rel, err := filepath.Rel(root, real); err == nil && "/"+rel == physical {
+				return string(b)
+			}
+		}
+		return physical
+	}
 	var created, changed []string
 	for k, v := range after {
 		b, ok := before[k]
@@ -915,7 +1047,7 @@ func evalInit(d *cliCase, ss []string) (cl string, il string) {
 	case len(changed) > 0:
 		return cl, "overwrote " + hxs(changed)
 	case rc == 0 && len(created) == 1 && !after[created[0]].dir && after[created[0]].content == task.DefaultTaskfile:
-		return cl, "written " + hx(created[0])
+		return cl, "written " + hx(viaLink(created[0]))
 	case rc == 0:
 		return cl, "ok-but-created " + hxs(created)
 	case len(created) > 0:
@@ -927,13 +1059,72 @@ func evalInit(d *cliCase, ss []string) (cl string, il string) {
 	}
 }
 
+// initRule: where the RULE of the property says `task --init [PATH]` writes — computed from the tree the
+// generator made, independently of the code's own predicates (and of the model's transcription of them):
+// no argument → the working directory; an argument that names an existing directory → Taskfile.yml in it;
+// a last component that is an extension only (".yml": a dot, then at least one byte, no further dot) →
+// "Taskfile"+ext beside it; anything else → that file.  A target that is itself a directory takes
+// Taskfile.yml inside; nothing that exists is ever overwritten; a missing parent is an error.
+// Result token: w<hex path> | x (refused: exists) | e (error).
+func initRule(isDir map[string]bool, wd string, args []string, dash int) string {
+	pos := args
+	if dash >= 0 && dash <= len(args) {
+		pos = args[:dash]
+	}
+	resolve := func(x string) string {
+		if strings.HasPrefix(x, "/") {
+			return filepath.Clean(x)
+		}
+		return filepath.Join(wd, x)
+	}
+	exists := func(p string) bool { _, ok := isDir[p]; return ok }
+	inDir := func(d string) string {
+		t := filepath.Join(d, "Taskfile.yml")
+		if exists(t) {
+			return "x"
+		}
+		return "w" + hx(t)
+	}
+	if len(pos) == 0 {
+		if isDir[wd] {
+			return inDir(wd)
+		}
+		return "e"
+	}
+	a := pos[0]
+	target := resolve(a)
+	if !(exists(target) && isDir[target]) {
+		last := a[strings.LastIndex(a, "/")+1:]
+		if len(last) >= 2 && last[0] == '.' && !strings.Contains(last[1:], ".") {
+			d := a[:len(a)-len(last)]
+			if d == "" {
+				d = "."
+			}
+			target = resolve(filepath.Join(d, "Taskfile"+last))
+		}
+	}
+	switch {
+	case exists(target) && isDir[target]:
+		return inDir(target)
+	case exists(target):
+		return "x"
+	case exists(filepath.Dir(target)) && isDir[filepath.Dir(target)]:
+		return "w" + hx(target)
+	default:
+		return "e"
+	}
+}
+
 func (c *Ctx) genInit() *cliCase {
 	d := &cliCase{Kind: "init", Dash: -1, Flag: "--init"}
 	if c.Rng.Intn(4) == 0 {
 		d.Flag = "-i"
 	}
 	pool := []string{"d:w/sub", "d:w/deep/er", "f:w/Taskfile.yml", "f:w/sub/Taskfile.yml", "f:w/exist.yml", "f:w/sub/x.yml", "d:other",
-		"f:other/Taskfile.yml", "f:w/Taskfile.yaml", "d:w/dir.yml", "f:w/sub/Taskfile.yaml", "f:Taskfile.yml", "d:w/sub/Taskfile.yml", "d:w/with space"}
+		"f:other/Taskfile.yml", "f:w/Taskfile.yaml", "d:w/dir.yml", "f:w/sub/Taskfile.yaml", "f:Taskfile.yml", "d:w/sub/Taskfile.yml", "d:w/with space",
+		"d:w/.hid", "d:w/sub/.cfg", "f:w/.hid/Taskfile.yml", "f:w/.dotfile", "f:w/Taskfile.hid", "f:w/Taskfile.",
+		// symbolic links: to a directory, dangling, to a file
+		"l:w/ldir=sub", "l:w/dangling.yml=nowhere.yml", "l:w/tolink.yml=exist.yml", "l:w/lother={ROOT}/other", "l:w/ldang=nodir"}
 	for _, e := range pool {
 		if c.Rng.Intn(3) == 0 {
 			d.Tree = append(d.Tree, e)
@@ -942,7 +1133,9 @@ func (c *Ctx) genInit() *cliCase {
 	argPool := []string{"sub", "sub/", "new.yml", "exist.yml", ".yml", ".yaml", "sub/.yaml", "sub/new.yml", "missing/new.yml", "exist.yml/x",
 		"{ROOT}/w/sub", "{ROOT}/other", "{ROOT}/other/a.yml", "{ROOT}/w/abs.yml", "..", "../up.yml", "./x.yml", "sub/../y.yml", ".", "./",
 		"with space", "with space/t.yml", "a b.yml", "Taskfile.yaml", "Taskfile.yml", "dir.yml", "deep/er", "deep/er/.yml", "noext", "a.b.c",
-		"sub//z.yml", "sub/./z.yml", "'q'.yml", "$HOME.yml", "*.yml", "x=y.yml", "é.yml"}
+		"sub//z.yml", "sub/./z.yml", "'q'.yml", "$HOME.yml", "*.yml", "x=y.yml", "é.yml",
+		".", "sub/.", "deep/er/.", "../w/.", "{ROOT}/w/.", "sub/..", "./.", ".hid", ".hid/", "sub/.cfg", ".dotfile", "...", ".a.b", "missing/.", "exist.yml/.",
+		"ldir", "ldir/x.yml", "ldir/.yaml", "dangling.yml", "tolink.yml", "lother", "lother/b.yml", "ldang", "ldang/x.yml"}
 	var argv []string
 	switch r := c.Rng.Intn(10); {
 	case r < 2:
@@ -992,6 +1185,14 @@ func runCliArgs(c *Ctx) {
 	add("var", []string{"A=1", "X=two assignments, no task name"}, -1)
 	add("var", []string{"X=v", "after the dash"}, 1)
 	add("fwd", []string{"fwd", "{{.Y}}", "it's"}, 1)
+	add("fwd", []string{"fwd", "a b", "it's", "$HOME"}, 1).Path = "inc"
+	add("fwd", []string{"fwd", "a b", "it's", "$HOME"}, 1).Path = "via"
+	add("fwd", []string{"fwd", "a b"}, 1).Path = "alias"
+	add("var", []string{"var", "X=it's \"$HOME\" *"}, -1).Path = "inc"
+	add("var", []string{"var", "X=it's \"$HOME\" *"}, -1).Path = "via"
+	add("var", []string{"var", "X=v"}, -1).Path = "alias"
+	add("typed", []string{"N1"}, -1)
+	add("typed", []string{"B1"}, -1)
 	// --init corpus: no argument, directory, file, extension only, existing file, after `--`
 	for _, ic := range []struct {
 		tree []string
@@ -1062,6 +1263,35 @@ func runCliArgs(c *Ctx) {
 		add("var", argv, -1)
 		c.Hit("var")
 	}
+	// path coverage: the same demand when the value travels through an included task, through a `task:` call that hands it
+	// on in `vars:`, through a global variable defined from it (that one arrives EMPTY: open finding)
+	npth := c.Pick(240, 2000)
+	for i := 0; i < npth; i++ {
+		path := []string{"inc", "via", "alias"}[c.Rng.Intn(3)]
+		var d *cliCase
+		if c.Rng.Intn(2) == 0 {
+			argv := []string{"fwd"}
+			for j, k := 0, 1+c.Rng.Intn(4); j < k; j++ {
+				argv = append(argv, c.qBytes(12, noTmpl))
+			}
+			d = add("fwd", argv, 1)
+		} else {
+			argv := []string{"var", "X=" + c.qBytes(16, noTmpl)}
+			if c.Rng.Intn(3) == 0 {
+				argv = []string{argv[1], "var"}
+			}
+			d = add("var", argv, -1)
+		}
+		d.Path = path
+		c.Hit("path:" + d.Kind + ":" + path)
+	}
+	// non-string values through shellQuote / q
+	for i := 0; i < c.Pick(3, 12); i++ {
+		for _, tv := range cliTyped {
+			add("typed", []string{tv[0]}, -1)
+			c.Hit("typed:" + tv[0])
+		}
+	}
 	// template stream (known finding: forwarded text is evaluated as a template)
 	nt := c.Pick(40, 400)
 	for i := 0; i < nt; i++ {
@@ -1117,8 +1347,8 @@ func runCliArgs(c *Ctx) {
 			c.Distinct("i|" + strings.Join(d.Tree, ",") + "|" + strings.Join(d.Argv, ",") + "|" + strconv.Itoa(d.Dash))
 		default:
 			c.Hit(d.Kind + ":" + strings.SplitN(out[i].il, " ", 2)[0])
-			if len(d.Argv) > 1 {
-				c.Distinct(d.Kind + "|" + strings.Join(d.Argv, ","))
+			if len(d.Argv) > 1 || d.Kind == "typed" {
+				c.Distinct(d.Kind + "|" + d.Path + "|" + strings.Join(d.Argv, ","))
 			}
 		}
 	}
